@@ -181,6 +181,11 @@ def prepare(m, J, st, spec, mf):
             for h in r.get('then', []):      # observers called between mutations (C05 / C14 histories)
                 nxt2 = []
                 for s2 in nxt:
+                    if h == 'clone':        # continue with a clone of the value built so far
+                        for kind, s3, v in api.call(m, s2, '<ReplaceSource<%s> as Clone>::clone' % ity, [s2.extra['root']]):
+                            if kind != 'ret': J.fail_path(m, s3, 'C17: clone panics: %r' % (v,), mf); continue
+                            s3.extra['root'] = Ref(Cell(v)); nxt2.append(s3)
+                        continue
                     name = {'source': '<ReplaceSource<%s> as Source>::source', 'size': '<ReplaceSource<%s> as Source>::size'}[h] % ity
                     for kind, s3, v in api.call(m, s2, name, [s2.extra['root']]):
                         if kind != 'ret': J.fail_path(m, s3, 'C17: observer %s panics: %r' % (h, v), mf); continue
